@@ -32,6 +32,13 @@ def run(ctx):
     rep.rule("C07.R2", "attribute resolution / callable misuse / helper arity under E_pot", 8)
     rep.rule("C07.R3", "energy atoms are covered by the generalized force", 3)
     rep.rule("C07.R4", "compliance form provides the full protocol from the same accessors", 4)
+    rep.rule("C07.R5", "energy, force direction and Jacobian of one force element refer to the same material point (xi, B_r_CP)", 4)
+    owners = []
+    for ci in ctx.model.all_classes():
+        if ci.rel.startswith(("cardillo/forces/", "cardillo/interactions/")):
+            owners.append((ci.qual, ci.rel, ci.node))
+    if protocol.point_argument_agreement(ctx, "C07.R5", owners) < 2:
+        raise AnalysisError("fewer than 2 force elements with point-protocol calls found")
     _seen.clear()
     sm = sysmodel.SystemModel(ctx)
     sysmodel.codefinition(ctx, sm, "C07.R1", family=lambda p, m: m == "E_pot", require_live=False)
@@ -178,4 +185,14 @@ MUTANTS = [
     dict(id="c07-m6", what="Spring loses c_la_c", file="cardillo/force_laws/spring.py",
          old="    def c_la_c(self):\n        return 1 / self.k", new="    def c_la_c_(self):\n        return 1 / self.k", expect="C07.R4"),
 ]
-NEUTRAL = []
+MUTANTS += [
+    dict(id="c07-seed", canary=True, what="[seeded by sub-agent] Force: r_OP (energy) evaluated at the centre of mass, J_P (force) at the eccentric point", file="cardillo/forces/force.py",
+         old="        self.r_OP = lambda t, q: subsystem.r_OP(t, q, xi, B_r_CP)\n        self.J_P = lambda t, q: subsystem.J_P(t, q, xi, B_r_CP)\n        self.J_P_q = lambda t, q: subsystem.J_P_q(t, q, xi, B_r_CP)",
+         new="        self.r_OP = lambda t, q: subsystem.r_OP(t, q, xi=xi)\n        self.J_P = lambda t, q: subsystem.J_P(t, q, xi=xi, B_r_CP=B_r_CP)\n        self.J_P_q = lambda t, q: subsystem.J_P_q(t, q, xi=xi, B_r_CP=B_r_CP)", expect="C07.R5"),
+    dict(id="c07-r5-2", what="TwoPointInteraction: velocity of point 2 taken at the centre of mass", file="cardillo/interactions/two_point_interaction.py",
+         old="        self.v_P2 = lambda t, q, u: self.subsystem2.v_P(\n            t, q[self._nq1 :], u[self._nu1 :], self.xi2, self.B_r_CP2\n        )",
+         new="        self.v_P2 = lambda t, q, u: self.subsystem2.v_P(\n            t, q[self._nq1 :], u[self._nu1 :], self.xi2\n        )", expect="C07.R5"),
+]
+NEUTRAL = [
+    dict(id="c07-n-r5", canary=True, what="Force lambdas rewritten with keyword arguments (same point)", file="cardillo/forces/force.py",
+         old="        self.r_OP = lambda t, q: subsystem.r_OP(t, q, xi, B_r_CP)\n", new="        self.r_OP = lambda t, q: subsystem.r_OP(t, q, xi=xi, B_r_CP=B_r_CP)\n"),]
